@@ -311,8 +311,11 @@ def evaluate(ctx, cases):
         routes = r["routes"]
         bad = False
         for name, rr in routes.items():
-            if "harness_error" in rr:
-                ctx.obligation_broken("C33 harness (%s, %s)" % (m["name"], name), rr["harness_error"])
+            if "harness_error" in rr or ("crash" in rr and "did not finish" in rr["crash"]):
+                ctx.obligation_broken("C33 harness (%s, %s)" % (m["name"], name), rr.get("harness_error") or rr["crash"])
+                bad = True
+            elif "crash" in rr:
+                ctx.violation(m, "%s: building/probing ends the Python process: %s" % (name, rr["crash"]))
                 bad = True
             elif "build_error" in rr:
                 ctx.violation(m, "matching cdef and C source, but the %s build fails: %s: %s"
